@@ -7,6 +7,72 @@ From RecordUpdate Require Import RecordSet.
 Import RecordSetNotations.
 Open Scope N_scope.
 
+(* the four component types are implicit in the engine functions, locally to this file *)
+#[local] Arguments init {enc dec} _ {ores ires} _ _.
+#[local] Arguments release {enc dec ores ires} _ _ _ _.
+#[local] Arguments disconnect_completion {enc dec ores ires} _ _.
+#[local] Arguments fail_op {enc dec ores ires} _ _ _ _.
+#[local] Arguments ping_extension {enc dec ores ires} _ _.
+#[local] Arguments succeed_op {enc dec ores ires} _ _ _ _.
+#[local] Arguments fail_all {enc dec ores ires} _ _ _ _.
+#[local] Arguments succeed_all {enc dec ores ires} _ _ _.
+#[local] Arguments andthen {enc dec ores ires} _ _.
+#[local] Arguments try_ {enc dec ores ires} _ _.
+#[local] Arguments pure {enc dec ores ires} _.
+#[local] Arguments create_operation {enc dec ores ires} _ _.
+#[local] Arguments passes_now {enc dec ores ires} _ _ _.
+#[local] Arguments user_event {enc dec ores ires} _ _ _ _.
+#[local] Arguments create_connect {enc dec ores ires} _ _.
+#[local] Arguments net_opened {enc dec} _ {ores ires} _ _ _.
+#[local] Arguments op_exists {enc dec ores ires} _ _.
+#[local] Arguments op_passes {enc dec ores ires} _ _ _.
+#[local] Arguments partition_policy {enc dec ores ires} _ _ _.
+#[local] Arguments closed_current {enc dec ores ires} _ _.
+#[local] Arguments slow_start_init {enc dec ores ires} _ _.
+#[local] Arguments update_retries {enc dec ores ires} _ _.
+#[local] Arguments fail_exceeding {enc dec ores ires} _ _.
+#[local] Arguments has_pubrel {enc dec ores ires} _ _.
+#[local] Arguments net_closed_raw {enc dec ores ires} _ _.
+#[local] Arguments net_closed {enc dec ores ires} _ _.
+#[local] Arguments net_write_completion {enc dec ores ires} _ _.
+#[local] Arguments acquire_free_pid {enc dec ores ires} _ _.
+#[local] Arguments acquire_pid_for {enc dec ores ires} _ _.
+#[local] Arguments unbind {enc dec ores ires} _ _.
+#[local] Arguments passes_receive_max {enc dec ores ires} _ _.
+#[local] Arguments throttled {enc dec ores ires} _ _.
+#[local] Arguments has_pending_ack {enc dec ores ires} _.
+#[local] Arguments dequeue {enc dec ores ires} _ _ _.
+#[local] Arguments fully_written {enc dec ores ires} _ _.
+#[local] Arguments service_keep_alive {enc dec ores ires} _ _ _.
+#[local] Arguments process_ack_timeouts {enc dec ores ires} _ _ _.
+#[local] Arguments halt_on_error {enc dec ores ires} _ _.
+#[local] Arguments next_service_time {enc dec ores ires} _ _ _.
+#[local] Arguments build_settings {enc dec ores ires} _ _ _.
+#[local] Arguments apply_session {enc dec ores ires} _ _ _.
+#[local] Arguments hres_of {enc dec ores ires} _ _.
+#[local] Arguments pre_connack {enc dec ores ires} _.
+#[local] Arguments sum_ss {enc dec ores ires} _.
+#[local] Arguments handle_pingresp {enc dec ores ires} _.
+#[local] Arguments handle_suback {enc dec ores ires} _ _ _.
+#[local] Arguments handle_unsuback {enc dec ores ires} _ _ _.
+#[local] Arguments publish_qos_of {enc dec ores ires} _ _.
+#[local] Arguments handle_puback {enc dec ores ires} _ _ _.
+#[local] Arguments handle_pubrec {enc dec ores ires} _ _ _.
+#[local] Arguments handle_pubrel {enc dec ores ires} _ _.
+#[local] Arguments handle_pubcomp {enc dec ores ires} _ _ _.
+#[local] Arguments handle_publish {enc dec ores ires} _ _.
+#[local] Arguments handle_disconnect {enc dec ores ires} _ _ _.
+#[local] Arguments is_connect_op {enc dec ores ires} _ _.
+#[local] Arguments connect_in_queue {enc dec ores ires} _.
+#[local] Arguments reset {enc dec ores ires} _ _.
+#[local] Arguments out_of_res {enc dec ores ires} _ _.
+#[local] Arguments nst_queue {enc dec ores ires} _ _ _ _.
+#[local] Arguments earliest_tmo {enc dec ores ires} _.
+#[local] Arguments SeatStop {enc dec ores ires} _.
+#[local] Arguments SeatContinue {enc dec ores ires} _ _.
+#[local] Arguments SeatEncode {enc dec ores ires} _.
+
+
 Lemma nodup_app_inv {A} (l m : list A) : NoDup (l ++ m) -> NoDup l /\ NoDup m /\ forall x, In x l -> ~ In x m.
 Proof.
   induction l as [|a l IH]; cbn; intros H.
@@ -76,7 +142,7 @@ Section Events.
   Lemma user_event_spec (s : state) p t :
     WF cfg s ->
     let r := user_event cfg s p t in
-    r_out r = Ok tt /\ WF cfg (r_s r).
+    r_out r = Ok tt /\ WF cfg (r_s r) /\ comp_of (r_s r) = comp_of s.
   Proof.
     intros [HW HP]. unfold user_event.
     set (o := new_op p (negb (is_disconnect p)) (if is_disconnect p then None else t)).
@@ -91,13 +157,13 @@ Section Events.
         assert (Hst : s_st s = Connected).
         { unfold passes_now in Epass. cbn in Epass. destruct (s_st s); cbn in Epass; try reflexivity;
             destruct p; cbn in Ed, Epass; discriminate. }
-        cbn. split; [reflexivity|]. split.
+        cbn. split; [reflexivity|]. split; [|reflexivity]. split.
         * eapply WFS_queues; [exact C2| | | | | | | | | | |]; cbn; auto; try tauto.
           -- core_cbn. cbn. intros i. cbn. intros [H|[H|[[H|H]|[H|H]]]]; try tauto; try (right; right; lia).
           -- intros i [<-|H]; [|tauto]. right. intros o1 Ho1. unfold getop in Ho1, C6. cbn in Ho1, C6.
              assert (o1 = o) by congruence. subst o1. unfold o. cbn. destruct p; cbn in Ed; try discriminate; try reflexivity.
         * eapply (WFP_newop cfg s _ o); try eassumption; try reflexivity; auto. right. rewrite Hst. split; discriminate.
-      + cbn. split; [reflexivity|]. split.
+      + cbn. split; [reflexivity|]. split; [|reflexivity]. split.
         * eapply WFS_queues; [exact C2| | | | | | | | | | |]; cbn; auto; try tauto.
           -- core_cbn. cbn. intros q i o1 Hi Hp T. destruct T as [T|[T|T]]; try tauto. right; left. apply in_or_app. tauto.
           -- core_cbn. cbn. intros i [H|H]; [|tauto]. apply in_app_or in H. destruct H as [H|[<-|[]]]; [tauto|]. right; right. lia.
@@ -106,7 +172,7 @@ Section Events.
       pose proof (fail_op_spec cfg [] s1 (s_next_id s) EOfflineQueuePolicyFailed C2 (W9_of_WFP s1 HP1)) as F.
       set (r := fail_op cfg s1 (s_next_id s) EOfflineQueuePolicyFailed) in *.
       cbn [r_s r_out r_done]. rewrite (nopanic_is_panic _ (fs_nopanic _ _ _ _ _ F)).
-      split; [reflexivity|]. split; [apply F|].
+      split; [reflexivity|]. split; [|rewrite (rest_comp _ _ (fc_rest _ _ _ (fs_frame _ _ _ _ _ F))); reflexivity]. split; [apply F|].
       eapply WFP_frame_unref; [exact HP1|apply F|apply F|].
       intros i [<-|[]].
       assert (Hq : forall j, inq (core_of s) j -> j <> s_next_id s).
@@ -128,7 +194,9 @@ Section Events.
     let r := net_opened dec_init cfg s deadline in
     (forall site, r_out r <> Panic site) /\ WFS (r_s r) /\ (r_out r = Ok tt -> WFP cfg (r_s r)) /\
     (s_st s = Disconnected -> r_out r = Ok tt /\ s_st (r_s r) = PendingConnack) /\
-    (s_st s <> Disconnected -> r_out r = Err EInternalStateError).
+    (s_st s <> Disconnected -> r_out r = Err EInternalStateError) /\
+    s_enc (r_s r) = s_enc s /\ s_ores (r_s r) = s_ores s /\ s_ires (r_s r) = s_ires s /\
+    (s_dec (r_s r) = s_dec s \/ s_dec (r_s r) = dec_init).
   Proof.
     intros [HW HP]. unfold net_opened. destruct (pstate_eqb (s_st s) Disconnected) eqn:Est; cbn [negb].
     2:{ apply pstate_eqb_neq in Est. cbn. splits; auto; try (intros; discriminate). intros; congruence. }
@@ -141,7 +209,7 @@ Section Events.
     set (o := new_op (create_connect cfg s1) false None).
     destruct (create_op_spec [] s1 o HW1 eq_refl eq_refl) as (C1 & C2 & C3 & C4 & C5 & C6 & C7 & C8 & C9 & C10).
     cbn [create_operation fst snd] in *. cbv zeta. cbn [pure r_s r_out r_done].
-    split; [intros; discriminate|]. split; [|split; [|split; [intros _; split; reflexivity|intros; congruence]]].
+    split; [intros; discriminate|]. split; [|split; [|split; [intros _; split; reflexivity|split; [intros; congruence|cbn; splits; auto]]]].
     - eapply WFS_queues; [exact C2| | | | | | | | | | |]; cbn; auto; try tauto.
       + core_cbn. cbn. intros i. cbn. intros [H|[H|[[H|H]|[H|H]]]]; try tauto; try (right; right; lia).
       + intros i [<-|H]; [|tauto]. right. intros o1 Ho1. unfold getop in Ho1, C6. cbn in Ho1, C6.
@@ -156,7 +224,7 @@ Section Events.
   Lemma net_write_completion_spec (s : state) :
     WF cfg s ->
     let r := net_write_completion cfg s in
-    (forall site, r_out r <> Panic site) /\ WFS (r_s r) /\ (r_out r = Ok tt -> WFP cfg (r_s r)).
+    (forall site, r_out r <> Panic site) /\ WFS (r_s r) /\ (r_out r = Ok tt -> WFP cfg (r_s r)) /\ comp_of (r_s r) = comp_of s.
   Proof.
     intros [HW HP]. unfold net_write_completion.
     destruct (pstate_eqb (s_st s) Halted || pstate_eqb (s_st s) Disconnected) eqn:Est.
@@ -172,7 +240,7 @@ Section Events.
     { intros i o Hi Ho. pose proof (w_pwco _ _ HW i o Hi Ho) as Hn. rewrite needs_pid_split in Hn.
       destruct (pubq (op_packet o)), (nonk (op_packet o)); cbn in Hn; congruence. }
     pose proof (succeed_all_spec cfg [] (s_pwco s) s1 HW1 H91 Hk) as F.
-    split; [apply F|]. split; [apply F|]. intros _.
+    split; [apply F|]. split; [apply F|]. split; [|rewrite (rest_comp _ _ (fc_rest _ _ _ (ss_frame _ _ _ _ _ F))); reflexivity]. intros _.
     unfold WFP in HP. destruct (s_st s) eqn:E; try discriminate.
     - (* PendingConnack: the written CONNECT is completed *)
       destruct HP as (A1 & A2 & A3 & A4 & A5 & A6 & A7 & A8).
@@ -198,6 +266,21 @@ Section Events.
   Definition reset_inv (st0 : pstate) (acc : res) : Prop :=
     r_out acc = Ok tt /\ WFS (r_s acc) /\ s_st (r_s acc) = st0.
 
+  Definition reset_cinv (c0 : option enc * dec * ores * ires) (acc : res) : Prop := comp_of (r_s acc) = c0.
+
+  Lemma reset_fold_comp c0 ids : forall acc, reset_cinv c0 acc -> reset_cinv c0 (fold_left reset_step ids acc).
+  Proof.
+    induction ids as [|id rest IH]; intros acc Hinv; cbn [fold_left]; [exact Hinv|]. apply IH.
+    destruct (is_panic (r_out acc)); [exact Hinv|]. unfold reset_cinv in *. cbn [r_s].
+    set (r1 := fail_op cfg (r_s acc) id EClientClosed).
+    assert (Hc : comp_of (r_s r1) = comp_of (r_s acc)).
+    { unfold r1, fail_op. destruct (lookup id (s_ops (r_s acc))) as [o|]; [|reflexivity].
+      unfold release. destruct (op_pid o); cbn;
+        repeat match goal with |- context [if ?b then _ else _] => destruct b; cbn end;
+        unfold disconnect_completion; repeat match goal with |- context [if ?b then _ else _] => destruct b; cbn end; reflexivity. }
+    congruence.
+  Qed.
+
   Lemma reset_fold st0 ids : forall acc,
     st0 = Disconnected \/ st0 = Halted -> reset_inv st0 acc -> reset_inv st0 (fold_left reset_step ids acc).
   Proof.
@@ -214,7 +297,7 @@ Section Events.
     WFS s ->
     r_out (reset cfg s) = Ok tt /\ WF cfg (r_s (reset cfg s)) /\
     s_st (r_s (reset cfg s)) = (if pstate_eqb (s_st s) Disconnected then Disconnected else Halted) /\
-    s_ops (r_s (reset cfg s)) = [].
+    s_ops (r_s (reset cfg s)) = [] /\ comp_of (r_s (reset cfg s)) = comp_of s.
   Proof.
     intros HW. unfold reset.
     set (s0 := if pstate_eqb (s_st s) Disconnected then s else s <| s_st := Halted |>).
@@ -225,10 +308,12 @@ Section Events.
       destruct (pstate_eqb (s_st s) Disconnected) eqn:E; [|split; [exact HW|reflexivity]].
       split; [exact HW|]. apply pstate_eqb_eq. exact E. }
     pose proof (reset_fold st0 (map fst (s_ops s0)) (pure s0) Hst0 Hinv0) as (I1 & I2 & I3).
+    assert (Hc0 : reset_cinv (comp_of s) (pure s0)) by (unfold reset_cinv, s0; destruct (pstate_eqb (s_st s) Disconnected); reflexivity).
+    pose proof (reset_fold_comp (comp_of s) (map fst (s_ops s0)) (pure s0) Hc0) as I4. unfold reset_cinv in I4.
     cbv zeta.
     set (r := fold_left reset_step (map fst (s_ops s0)) (pure s0)) in *. clearbody r.
     rewrite I1. cbn [is_panic r_s r_out].
-    split; [reflexivity|]. split; [|split; [exact I3|reflexivity]].
+    split; [reflexivity|]. split; [|split; [exact I3|split; [reflexivity|exact I4]]].
     split.
     - eapply (WFc_reset [] _ (s_next_id (r_s r))). reflexivity.
     - unfold WFP. cbn [s_st set]. 
